@@ -173,7 +173,7 @@ class ByKey:
         "implies(not isinstance(data, (dict, list, set, CommentedSet)), len(out) == 0)",
     ]
     loops = {
-        "for eleidx, element in enumerate(data)": {"body_ensures": [
+        "for eleidx, element in enumerate(list(data))": {"body_ensures": [
             # the element is evaluated at the same segment with its own coordinates (what 933aafa repaired)
             "called('segment') == 1",
             "call_event('segment')[1] is element and call_event('segment')[2] is data and same(call_event('segment')[3], eleidx)",
@@ -211,12 +211,12 @@ class ByAnchor:
     inline = [YP + "escaped", YP + "unescaped"]
     raises = ["YAMLPathException"]
     ensures = [
-        "implies(isinstance(data, list), looped('for lstidx, ele in enumerate(data)'))",
+        "implies(isinstance(data, list), looped('for lstidx, ele in enumerate(list(data))'))",
         "implies(isinstance(data, (CommentedSet, set)) and not isinstance(data, (list, dict)), looped('for ele in list(data)'))",
         "implies(not isinstance(data, (list, dict, CommentedSet, set)), len(out) == 0)",
     ]
     loops = {
-        "for lstidx, ele in enumerate(data)": {"sole_yielder": True, "body_ensures": WFA("ele", "data", "lstidx") + [
+        "for lstidx, ele in enumerate(list(data))": {"sole_yielder": True, "body_ensures": WFA("ele", "data", "lstidx") + [
             "(len(yielded) == 1) == %s" % (ANCH % ("ele", "ele"))]},
         "for key, val in list(data.items())": {"body_ensures": WFA("val", "data", "key") + [
             "(len(yielded) == 1) == (%s or %s)" % (ANCH % ("key", "key"), ANCH % ("val", "val"))]},
@@ -248,7 +248,7 @@ class BySearch:
     raises = ["YAMLPathException"]
     ensures = [
         "implies(isinstance(data, dict) and not isinstance(data, list) and attr == '.', looped('for key, val in list(data.items())'))",
-        "implies(isinstance(data, list) and traverse_lists, looped('for lstidx, ele in enumerate(data)'))",
+        "implies(isinstance(data, list) and traverse_lists, looped('for lstidx, ele in enumerate(list(data))'))",
         "implies(isinstance(data, list) and not traverse_lists, len(out) == 0)",
         "implies(isinstance(data, (CommentedSet, set)) and not isinstance(data, (list, dict)), looped('for ele in list(data)'))",
         "implies(isinstance(data, dict) and not isinstance(data, list) and attr != '.' and attr in data,"
@@ -264,7 +264,7 @@ class BySearch:
             "(len(yielded) == 1) == xor(%s, invert)" % (SM % "key")]},
         "for ele in list(data)": {"sole_yielder": True, "body_ensures": WFY("ele", "data", "ele", ESC % "ele") + [
             "(len(yielded) == 1) == xor(%s, invert)" % (SM % "ele")]},
-        "for lstidx, ele in enumerate(data)": {"sole_yielder": True, "body_ensures": WFY("ele", "data", "lstidx", "'[{}]'.format(lstidx)") + [
+        "for lstidx, ele in enumerate(list(data))": {"sole_yielder": True, "body_ensures": WFY("ele", "data", "lstidx", "'[{}]'.format(lstidx)") + [
             "(len(yielded) == 1) == xor(matches, invert)",
             "implies(attr == '.' and not (is_aoh and isinstance(ele, dict) and term in ele), same(matches, %s))" % (SM % "ele"),
             "implies(attr == '.' and is_aoh and isinstance(ele, dict) and term in ele, matches is True)",
@@ -285,14 +285,14 @@ class MatchAllUnfiltered:
     ensures = [
         # ... and nothing else: on a container the only yields are those of the loop over its children
         "implies(isinstance(data, dict), looped('for key, val in data.items()'))",
-        "implies(isinstance(data, list), looped('for idx, ele in enumerate(data)'))",
-        "implies(isinstance(data, (CommentedSet, set)), looped('for ele in data'))",
+        "implies(isinstance(data, list), looped('for idx, ele in enumerate(list(data))'))",
+        "implies(isinstance(data, (CommentedSet, set)), looped('for ele in list(data)'))",
         "implies(not isinstance(data, (dict, list, CommentedSet, set)), len(out) == 0)",
     ]
     loops = {
         "for key, val in data.items()": {"sole_yielder": True, "body_ensures": WF("val", "data", "key", ESC % "key")},
-        "for idx, ele in enumerate(data)": {"sole_yielder": True, "body_ensures": WF("ele", "data", "idx", "'[{}]'.format(idx)")},
-        "for ele in data": {"sole_yielder": True, "body_ensures": WF("ele", "data", "ele", ESC % "ele")},
+        "for idx, ele in enumerate(list(data))": {"sole_yielder": True, "body_ensures": WF("ele", "data", "idx", "'[{}]'.format(idx)")},
+        "for ele in list(data)": {"sole_yielder": True, "body_ensures": WF("ele", "data", "ele", ESC % "ele")},
     }
     opts = dict(SEG_INV, yields=NC)
 
@@ -317,12 +317,12 @@ class MatchAllFiltered:
     raises = ["YAMLPathException"]
     ensures = [
         "implies(isinstance(data, dict), looped('for key, val in list(data.items())'))",
-        "implies(isinstance(data, list), looped('for idx, ele in enumerate(data)'))",
+        "implies(isinstance(data, list), looped('for idx, ele in enumerate(list(data))'))",
         "implies(not isinstance(data, (dict, list)), len(out) == 0)",
     ]
     loops = {
         "for key, val in list(data.items())": {"sole_yielder": True, "body_ensures": PROBE("val", "key", ESC % "key")},
-        "for idx, ele in enumerate(data)": {"sole_yielder": True, "body_ensures": PROBE("ele", "idx", "'[{}]'.format(idx)")},
+        "for idx, ele in enumerate(list(data))": {"sole_yielder": True, "body_ensures": PROBE("ele", "idx", "'[{}]'.format(idx)")},
     }
     opts = dict(SEG_INV, yields=NC)
 
@@ -363,7 +363,7 @@ class ByTraversal:
             "called('handler') == 1 and %s[1] == 'traverse' and %s[2] is val and %s[7] is data and same(%s[8], key)" % (TRV, TRV, TRV, TRV),
             "path_is(%s[5], translated_path, %s) and extended_by(%s[6], ancestry, (data, key))" % (TRV, ESC % "key", TRV),
             "len(yielded) == 0"]},
-        "for idx, ele in enumerate(data)": {"body_ensures": [
+        "for idx, ele in enumerate(list(data))": {"body_ensures": [
             "called('handler') == 1 and %s[1] == 'traverse' and %s[2] is ele and %s[7] is data and same(%s[8], idx)" % (TRV, TRV, TRV, TRV),
             "path_is(%s[5], translated_path, '[{}]'.format(idx)) and extended_by(%s[6], ancestry, (data, idx))" % (TRV, TRV),
             "len(yielded) == 0"]},
@@ -373,7 +373,7 @@ class ByTraversal:
         "for node_coord in self._get_nodes_by_traversal(ele, yaml_path, segment_index, parent=data, parentref=idx, "
         "translated_path=next_translated_path, ancestry=next_ancestry)": {
             "sole_yielder": True, "body_ensures": ["len(yielded) == 1 and yielded[0] is node_coord"]},
-        "for ele in data": {"body_ensures": WF("ele", "data", "ele", ESC % "ele")},
+        "for ele in list(data)": {"body_ensures": WF("ele", "data", "ele", ESC % "ele")},
     }
     opts = dict(SEG_INV, yields="NodeCoords", decreases="size of the (finite, acyclic) subtree under `data`",
                 event="('handler', 'traverse', data, yaml_path, segment_index, kw_translated_path, kw_ancestry, kw_parent, kw_parentref)")
@@ -683,7 +683,7 @@ for _name in ("_has_concrete_child", "_has_anchored_child"):
             raises = ["YAMLPathException"]
             loops = {
                 # Array-of-Hashes pass-through: each element is examined with ITS OWN index, path and ancestry (new objects)
-                "for idx, ele in enumerate(data)": {"body_ensures": [
+                "for idx, ele in enumerate(list(data))": {"body_ensures": [
                     "called('has_child') <= 1",
                     "implies(called('has_child') == 1, call_event('has_child')[1] is ele and call_event('has_child')[2] is data "
                     "and same(call_event('has_child')[3], idx))",
